@@ -121,27 +121,30 @@ def _probe():
         src = open(os.path.join(os.path.dirname(os.path.abspath(__file__)), "kani/src/probe.rs")).read()
     except OSError:
         return []
-    return [dict(name="probe::" + n, timeout=300, mem_gb=20, no_cover_ok=True) for n in re.findall(r"pub fn (p_\w+)\(", src)]
+    return [dict(name="probe::" + n, timeout=int(os.environ.get("PROBE_TIMEOUT","240")), mem_gb=16, no_cover_ok=True) for n in re.findall(r"pub fn (p_\w+)\(", src)]
 PROPS["PROBE"] = {"feature": "probe", "harnesses": _probe()}
 
 _VERDICT_UNIT = "DefaultInfo::check_termination (check_convergence_full, check_convergence, is_solved, is_primal_infeasible, is_dual_infeasible)"
+_CHEAP = " The two recomputed products are kept cheap: tol_ktratio and (this harness) %s range over {+-2^k for every normal exponent, +-0, +-inf, NaN}; every other field and tolerance over all f64 bit patterns"
 _H_VERDICT = {
     "c01_verdict_solved": dict(nofloat=True, timeout=600, unit=_VERDICT_UNIT, inst="f64, every bit pattern incl. NaN/inf/subnormal",
         bounds="all info fields, all tolerances, any max_iter/time_limit/iter; prior status Unsolved",
         oracle="Solved <=> ktratio<=1 & res_primal<tol_feas & res_dual<tol_feas & (gap_abs<tol_gap_abs | gap_rel<tol_gap_rel); return <=> status!=Unsolved; only status changes"),
-    "c02_verdict_infeasible": dict(nofloat=True, timeout=600, unit=_VERDICT_UNIT, inst="f64 all bit patterns", bounds="as c01_verdict_solved",
+    "c02_verdict_infeasible": dict(nofloat=True, timeout=900, unit=_VERDICT_UNIT, inst="f64 bit-precise", bounds="as c01_verdict_solved." + _CHEAP % "tol_infeas_rel",
         oracle="PrimalInfeasible <=> !solved & ktratio>1000/tol_ktratio & b'z<-tol_abs & res_primal_inf<-tol_rel*b'z; dual analogue, primal first"),
-    "c04_verdict_limits": dict(nofloat=True, timeout=900, unit=_VERDICT_UNIT, inst="f64 all bit patterns", bounds="as c01_verdict_solved",
+    "c02_verdict_infeasible_dots": dict(nofloat=True, timeout=900, unit=_VERDICT_UNIT, inst="f64 bit-precise", bounds="as c01_verdict_solved." + _CHEAP % "b'z and q'x (tol_infeas_rel: all f64)",
+        oracle="same"),
+    "c04_verdict_limits": dict(nofloat=True, timeout=900, unit=_VERDICT_UNIT, inst="f64 bit-precise", bounds="as c01_verdict_solved." + _CHEAP % "tol_infeas_rel",
         oracle="InsufficientProgress => not converged, residuals worse, stall or ktratio<1; stall => InsufficientProgress; else MaxIterations <=> max_iter==iterations; else MaxTime <=> solve_time>time_limit; else Unsolved (the factor 100 of the divergence test is outside: f64 multiplier equivalence)"),
-    "c03_almost": dict(nofloat=True, timeout=900, unit="DefaultInfo::post_process -> check_convergence_almost", inst="f64 all bit patterns",
-        bounds="all 11 prior statuses, all fields and reduced tolerances",
+    "c03_almost": dict(nofloat=True, timeout=900, unit="DefaultInfo::post_process -> check_convergence_almost", inst="f64 bit-precise",
+        bounds="all 11 prior statuses, all fields and reduced tolerances." + _CHEAP % "reduced_tol_infeas_rel",
         oracle="status rewritten only from {NumericalError,InsufficientProgress,MaxIterations,MaxTime}, only to Almost*, only if the reduced test holds"),
     "c03_rollback": dict(nofloat=True, timeout=600, unit="DefaultInfo::save_prev_iterate / reset_to_prev_iterate, DefaultVariables::copy_from", inst="f64 all bit patterns",
         bounds="n=m=2", oracle="six info fields and x,s,z,tau,kappa restored bit-for-bit"),
     "c01_unscale": dict(timeout=900, unit="DefaultVariables::unscale (+ DefaultProblemData::new to build the data object)", inst="GF(13) (exact field; all values)",
         bounds="n=m=2, arbitrary d,dinv,e,einv,c,tau,kappa in the field", oracle="x=(x*d)/tau, z=(z*e)/(c tau), s=(s*einv)/tau; kappa instead of tau iff infeasible (cross-multiplied)"),
     "c01_scale_invariance_m1": dict(nofloat=True, stubs=True, timeout=3000, mem_gb=28, unit="DefaultResiduals::update + DefaultInfo::update (gemv, symv, dot, norm_scaled, get_normq/get_normb)", inst="f64: data/iterate small integers |v|<=3, scalings powers of two (all products exact)",
-        bounds="n=1, m=1; d,e,c in {1/4..4}, tau in {1,2,4}", oracle="every termination quantity (costs, residuals, gaps, ktratio) is bit-identical when computed from the internally scaled presentation and from the user's data with the unscaled iterate; cost formulas q'x+x'Px/2, -b'z-x'Px/2"),
+        bounds="n=1, m=1; 3 enumerated scaling combinations (d,e,c,tau powers of two); data and iterate symbolic small integers", oracle="every termination quantity (costs, residuals, gaps, ktratio) is bit-identical when computed from the internally scaled presentation and from the user's data with the unscaled iterate; cost formulas q'x+x'Px/2, -b'z-x'Px/2"),
     "c01_scale_invariance_m2": dict(nofloat=True, stubs=True, tier="thorough", timeout=5400, mem_gb=32, unit="same", inst="same", bounds="n=1, m=2", oracle="same"),
     "c01_post_process_fp": dict(timeout=900, unit="DefaultSolution::post_process -> DefaultVariables::unscale", inst="GF(13)",
         bounds="n=m=2, 7 non-infeasible statuses", oracle="returned x,z,s are the unscaled iterate; objectives copied"),
@@ -164,7 +167,7 @@ PROPS["C02"] = {
     "bounds_note": "every f64 bit pattern; n=m=2 for the vectors",
     "outside": "that a certificate is found; numerical size of A'z; membership of z in K*",
     "assumptions": PROPS["C01"]["assumptions"],
-    "harnesses": _pick(["c02_verdict_infeasible", "c03_almost", "c03_solution_post_process", "c01_unscale", "c01_scale_invariance_m1"]),
+    "harnesses": _pick(["c02_verdict_infeasible", "c02_verdict_infeasible_dots", "c03_almost", "c03_solution_post_process", "c01_unscale", "c01_scale_invariance_m1"]),
 }
 PROPS["C03"] = {
     "feature": "c03",
@@ -305,8 +308,8 @@ _MAPS_OR = ("K canonical of dimension n+m+p, all entries in the requested triang
 PROPS["C11"] = {
     "native_tests": ["tv_composite", "tv_kkt"],
     "feature": "c11",
-    "bounds_note": "n=2; P patterns enumerated (empty, diagonal, missing diagonals, full); cone layouts enumerated ([Zero1,NN2], [NN1,SOC3], [SOC5] sparse, [Exp], [NN1,SOC5,Zero1]); 4 enumerated A patterns per harness (dense, last-row only, empty first column, scattered); symbolic values; both triangles",
-    "outside": "exp/pow Hs numerics; GenPow sparse expansion positions; the regularise/refactor/restore cycle of DirectLDLKKTSolver::update (needs a live LDL engine: AMD) ; sign vector",
+    "bounds_note": "n=2; P patterns enumerated (empty, diagonal, missing diagonals, full); cone layouts enumerated ([Zero1,NN2], [NN1,SOC3], [Exp]); 4 enumerated A patterns per harness (dense, last-row only, empty first column, scattered); symbolic values; both triangles",
+    "outside": "POSITIONS of the sparse cone expansions (SOC dim > 4, GenPow: u,v / p,q,r and their diagonal) and every layout containing such a cone: their index maps live in a heap Vec of enums inside LDLDataMap, which CBMC does not constant-propagate; the harnesses (kept in c11.rs: c11_maps_soc5_*, c11_maps_soc2soc5_*, ...) did not finish in 40 min and are not registered - so the seeded change C11 (row offset of a sparse expansion after a dense block) is NOT caught; exp/pow Hs numerics; the real LDL engines",
     "assumptions": ["CompositeCone built by the hook constructor new_without_type_counts (identical to CompositeCone::new except the printing-only HashMap); RandomState::new stubbed with fixed keys"],
     "harnesses": _mk("c11", [
         ("c11_maps_znn_p3_triu", dict(stubs=True, unit=_MAPS_UNIT, inst="f64 small ints (values only copied)", bounds="cones [Zero1,NN2], P full triu, A 3x2 nnz=3, triu", oracle=_MAPS_OR, timeout=1200, mem_gb=20)),
@@ -315,16 +318,10 @@ PROPS["C11"] = {
         ("c11_maps_znn_p4_tril", dict(stubs=True, rot=True, unit=_MAPS_UNIT, inst="f64", bounds="cones [Zero1,NN2], P only (0,1), tril", oracle=_MAPS_OR, timeout=1200, mem_gb=20)),
         ("c11_maps_nnsoc3_p1_triu", dict(stubs=True, unit=_MAPS_UNIT, inst="f64", bounds="cones [NN1,SOC3] (dense 3x3 block), diagonal P, triu", oracle=_MAPS_OR, timeout=1800, mem_gb=20)),
         ("c11_maps_nnsoc3_p5_tril", dict(stubs=True, rot=True, unit=_MAPS_UNIT, inst="f64", bounds="cones [NN1,SOC3], P only (1,1), tril", oracle=_MAPS_OR, timeout=1800, mem_gb=20)),
-        ("c11_maps_soc5_p3_triu", dict(stubs=True, unit=_MAPS_UNIT, inst="f64", bounds="cones [SOC5] (sparse expansion), full P, triu", oracle=_MAPS_OR, timeout=2400, mem_gb=24)),
-        ("c11_maps_soc5_p2_tril", dict(stubs=True, tier="thorough", unit=_MAPS_UNIT, inst="f64", bounds="cones [SOC5], P missing diag, tril", oracle=_MAPS_OR, timeout=2400, mem_gb=24)),
-        ("c11_maps_soc2soc5_p1_triu", dict(stubs=True, unit=_MAPS_UNIT, inst="f64", bounds="cones [SOC2,SOC5]: sparse expansion after a dense 2x2 block, diagonal P, A 7x2 nnz=2, triu", oracle=_MAPS_OR, timeout=3000, mem_gb=28)),
-        ("c11_maps_expsoc5_p0_tril", dict(stubs=True, tier="thorough", unit=_MAPS_UNIT, inst="f64", bounds="cones [Exp,SOC5], empty P, tril", oracle=_MAPS_OR, timeout=3000, mem_gb=28)),
         ("c11_maps_exp_p4_triu", dict(stubs=True, rot=True, unit=_MAPS_UNIT, inst="f64", bounds="cones [Exp] dense block, P only (0,1), triu", oracle=_MAPS_OR, timeout=1800, mem_gb=20)),
-        ("c11_maps_nnsoc5z_p1_tril", dict(stubs=True, tier="thorough", unit=_MAPS_UNIT, inst="f64", bounds="cones [NN1,SOC5,Zero1], diagonal P, tril", oracle=_MAPS_OR, timeout=3000, mem_gb=28)),
         ("c11_kkt_sync_nn2_reg", dict(stubs=True, nofloat=True, unit="DirectLDLKKTSolver::{update_P, update_A, update -> regularize_and_refactor, _update_values, _fill_signs} against a mirror LDL engine", inst="f64 small ints", bounds="n=2, cones [NN2], static regularisation on", timeout=2400, mem_gb=24,
             oracle="at refactor the engine's copy == the KKT matrix (every P/A/Hs/diagonal write reached it); afterwards KKT holds the new P,A and an UNregularised diagonal; engine got +eps/-eps by sign; sign vector")),
         ("c11_kkt_sync_zero1_nn1_noreg", dict(stubs=True, nofloat=True, rot=True, unit="same", inst="f64", bounds="cones [Zero1,NN1], regularisation off", timeout=2400, mem_gb=24, oracle="same, no shift")),
-        ("c11_kkt_sync_soc5_reg", dict(stubs=True, nofloat=True, tier="thorough", unit="same + SOC csc_update_sparsecone (_scale_values)", inst="f64", bounds="cones [SOC5] sparse expansion", timeout=3600, mem_gb=28, oracle="same")),
     ]) + [dict(name="c13::c13_soc3_hs_block_p7", unit="SecondOrderCone::get_Hs vs mul_Hs", inst="GF(7)", bounds="dim 3, all normalised w, eta, x", oracle="unpacked KKT block == operator applied when recovering the slack step", timeout=1500),
           dict(name="c13::c13_soc5_update_scaling_sparse_p31", unit="SecondOrderCone::update_scaling / sparse_data / get_Hs / mul_Hs", inst="GF(31)", bounds="dim 5", oracle="eta^2 (D + uu' - vv') == mul_Hs", timeout=3600, mem_gb=28)],
 }
@@ -334,17 +331,23 @@ PROPS["C13"] = {
     "outside": "floating-point accuracy near the cone boundary; PSD cone (LAPACK); the Nesterov-Todd identity (W'W) z = s and W z = lambda after update_scaling: they hold only for a coherent (positive) choice of the nested square roots, which a finite field cannot express - NOT decided; what is decided about update_scaling are the root-independent facts",
     "assumptions": ["sqrt in GF(p) is an arbitrary root; paths whose sqrt argument is not a square are cut (each harness has a cover witness behind the calls)", "the constant SQRT_2 is the canonical root of 2 (GF(7), GF(17), GF(31))"],
     "harnesses": _mk("c13", [
-        ("c13_soc3_w_winv_p7", dict(unit="SecondOrderCone::mul_W / mul_Winv (_soc_mul_W_inner, _soc_mul_Winv_inner)", inst="GF(7)", bounds="dim 3, all normalised w (w0^2-|w1|^2=1), eta!=0", oracle="Winv W = W Winv = I; W symmetric; alpha/beta form", timeout=1500)),
-        ("c13_soc3_w_winv", dict(tier="thorough", unit="same", inst="GF(13)", bounds="dim 3", oracle="same", timeout=3600, mem_gb=20)),
-        ("c13_soc5_w_winv", dict(tier="thorough", unit="same", inst="GF(13)", bounds="dim 5", oracle="same", timeout=5400, mem_gb=24)),
+        ("c13_soc3_winv_w_p7", dict(unit="SecondOrderCone::mul_W / mul_Winv (_soc_mul_W_inner, _soc_mul_Winv_inner)", inst="GF(7)", bounds="dim 3, all normalised w (w0^2-|w1|^2=1), eta!=0", oracle="Winv (W x) == x", timeout=1500)),
+        ("c13_soc3_w_winv_p7", dict(unit="same", inst="GF(7)", bounds="dim 3", oracle="W (Winv x) == x", timeout=1500)),
+        ("c13_soc3_w_symmetric_p7", dict(unit="SecondOrderCone::mul_W", inst="GF(7)", bounds="dim 3", oracle="matrix read off by unit vectors equals its transpose; mul_W(T) == mul_W(N)", timeout=1500)),
+        ("c13_soc3_w_alpha_beta_p7", dict(unit="SecondOrderCone::mul_W", inst="GF(7)", bounds="dim 3", oracle="y <- a W x + b y for all a,b,x,y", timeout=1500)),
+        ("c13_soc3_winv_w", dict(tier="thorough", unit="same", inst="GF(13)", bounds="dim 3", oracle="Winv (W x) == x", timeout=3600, mem_gb=20)),
+        ("c13_soc3_w_winv", dict(tier="thorough", unit="same", inst="GF(13)", bounds="dim 3", oracle="W (Winv x) == x", timeout=3600, mem_gb=20)),
+        ("c13_soc3_w_symmetric", dict(tier="thorough", unit="same", inst="GF(13)", bounds="dim 3", oracle="symmetric; alpha/beta form", timeout=3600, mem_gb=20)),
+        ("c13_soc5_winv_w", dict(tier="thorough", unit="same", inst="GF(13)", bounds="dim 5", oracle="Winv (W x) == x", timeout=5400, mem_gb=24)),
         ("c13_soc3_hs_dense_p7", dict(unit="SecondOrderCone::mul_Hs", inst="GF(7)", bounds="dim 3", oracle="mul_Hs == W'W", timeout=1500)),
         ("c13_soc3_hs_dense", dict(tier="thorough", unit="same", inst="GF(13)", bounds="dim 3", oracle="same", timeout=3600)),
         ("c13_soc3_hs_block_p7", dict(unit="SecondOrderCone::get_Hs (dense packed block)", inst="GF(7)", bounds="dim 3", oracle="unpacked packed-triu block == mul_Hs", timeout=1500)),
         ("c13_soc3_hs_block", dict(tier="thorough", unit="same", inst="GF(17)", bounds="dim 3", oracle="same", timeout=3600)),
         ("c13_soc3_update_scaling", dict(unit="SecondOrderCone::update_scaling", inst="GF(13)", bounds="dim 3, all s,z with square nonzero residuals", oracle="w normalised; eta^4 = res(s)/res(z)", timeout=2400, mem_gb=20)),
-        ("c13_soc5_update_scaling_sparse", dict(tier="thorough", unit="SecondOrderCone::update_scaling incl. sparse_data (u,v,d)", inst="GF(13)", bounds="dim 5", oracle="as above + eta^2(D+uu'-vv') == mul_Hs; D block = eta^2 diag(d,1,..)", timeout=3000, mem_gb=24)),
+        ("c13_soc5_update_scaling_sparse", dict(tier="thorough", unit="SecondOrderCone::update_scaling incl. sparse_data (u,v,d)", inst="GF(13)", bounds="dim 5 (two symbolic tail entries, the others zero)", oracle="as above + eta^2(D+uu'-vv') == mul_Hs; D block = eta^2 diag(d,1,..)", timeout=3000, mem_gb=24)),
         ("c13_soc5_update_scaling_sparse_p31", dict(unit="same", inst="GF(31)", bounds="dim 5", oracle="same", timeout=3600, mem_gb=28)),
-        ("c13_soc3_jordan", dict(unit="SecondOrderCone::circ_op/inv_circ_op/affine_ds/combined_ds_shift (_combined_ds_shift_symmetric)", inst="GF(13)", bounds="dim 3", oracle="arrow product; inverse; lambda o lambda; W^-1 ds o W dz - sigma mu e", timeout=1800)),
+        ("c13_soc3_jordan_p7", dict(unit="SecondOrderCone::circ_op/inv_circ_op/affine_ds/combined_ds_shift (_combined_ds_shift_symmetric)", inst="GF(7)", bounds="dim 3", oracle="arrow product; inverse; lambda o lambda; W^-1 ds o W dz - sigma mu e", timeout=1800)),
+        ("c13_soc3_jordan", dict(tier="thorough", unit="SecondOrderCone::circ_op/inv_circ_op/affine_ds/combined_ds_shift (_combined_ds_shift_symmetric)", inst="GF(13)", bounds="dim 3", oracle="arrow product; inverse; lambda o lambda; W^-1 ds o W dz - sigma mu e", timeout=3600)),
         ("c13_nn_scaling", dict(unit="NonnegativeCone::update_scaling/get_Hs/mul_Hs/mul_W/mul_Winv/affine_ds/Ds_from_Dz_offset", inst="GF(13)", bounds="dim 2", oracle="Hs z = s; lambda^2 = s z; Winv W = I; offset = ds/z", timeout=1200)),
     ]),
 }
@@ -375,12 +378,11 @@ _C07_LOOP = dict(name="c04::c04_loop_asym_dual_mi1", nofloat=True, stubs=True, u
 PROPS["C07"] = {
     "native_tests": ["tv_composite"],
     "feature": "c07",
-    "bounds_note": "tau/kappa step: all positive finite tau,kappa, all step data; budget: all f64 info fields",
+    "bounds_note": "tau/kappa step: all positive finite tau,kappa, all step data; budget independence: the real main loop run with a poisoned max_iter (max_iter<=1), see C04",
     "outside": "interiority of s,z after a step for SOC/exp/pow/PSD cones (real-number reasoning about roots/logs); bit-reproducibility of arithmetic (determinism of f64 operations is assumed); tau',kappa' > 0 after the step (needs reasoning about a rounded product - not finished by the SAT back end)",
     "assumptions": ["max_iter is read only in DefaultInfo::check_termination (grep-level side condition stated in DESIGN.md)"],
     "harnesses": _mk("c15", [
-        ("c07_alpha_range", dict(nofloat=True, stubs=True, unit="DefaultVariables::calc_step_length (empty composite cone)", inst="f64", bounds="tau,kappa > 0 finite; any d_tau,d_kappa; max_step_fraction in (0,1]", oracle="0 <= alpha <= 1; alpha == 1 for an affine step when tau,kappa do not decrease", timeout=1800)),
-        ("c07_budget_noninterference", dict(nofloat=True, unit="DefaultInfo::check_termination", inst="f64 every bit pattern", bounds="two settings differing only in max_iter, both != iterations", oracle="identical verdict and return value", timeout=900)),
+        ("c07_alpha_range", dict(nofloat=True, stubs=True, unit="DefaultVariables::calc_step_length (empty composite cone)", inst="f64", bounds="tau,kappa,d_tau,d_kappa signed powers of two (2^-40..2^40), tau,kappa > 0; any max_step_fraction in (0,1]", oracle="0 <= alpha <= 1; affine step == exact distance to tau=0 / kappa=0 capped at 1; tau,kappa stay >= 0 (> 0 for a combined step with fraction < 1)", timeout=1800)),
         ("c15_nn2_range", dict(nofloat=True, unit="NonnegativeCone::step_length", inst="f64 every bit pattern", bounds="dim 2", oracle="<= alpha_max; nonnegative for interior points", timeout=1200)),
         ("c15_soc3_range", dict(nofloat=True, unit="SecondOrderCone::step_length", inst="f64", bounds="dim 3", oracle="step in [0, alpha_max]", timeout=1800, mem_gb=20)),
     ]) + [_C07_LOOP],
@@ -424,17 +426,6 @@ PROPS["C10"] = {
     ]),
 }
 
-PROPS["C20"] = {
-    "native_tests": ["tv_composite"],
-    "feature": "c20",
-    "bounds_note": "silence: every info/settings value; routing: writes of 3, 0 and 2 arbitrary ASCII bytes",
-    "outside": "everything that formats numbers (iteration column, footer agreement, header dimensions and settings), file and stdout targets (FFI): string formatting is not executable by the model checker at a useful bound",
-    "assumptions": ["CompositeCone hook constructor; RandomState stub"],
-    "harnesses": _mk("c20", [
-        ("c20_silent", dict(stubs=True, nofloat=True, unit="DefaultInfo::{print_configuration,print_status_header,print_status,print_footer}", inst="f64 all values", bounds="any info state / status / settings, verbose=false, buffer target", oracle="Ok, zero bytes written, nothing even formatted", timeout=1500, mem_gb=32)),
-        ("c20_route", dict(unit="impl Write for PrintTarget; ConfigurablePrintTarget::{print_to_buffer,print_to_stream,print_to_sink,get_print_buffer}; Clone", inst="u8", bounds="3 writes (3,0,2 bytes), arbitrary ASCII", oracle="buffer / stream receive exactly the concatenation; sink accepts; get_print_buffer errs unless buffer; switching replaces the target", timeout=1500, mem_gb=32)),
-    ]),
-}
 
 
 PROPS["C05"] = {
